@@ -658,7 +658,7 @@ def r5_helpers(rule, root=None):
         rule.bad("get_allocation", "get_allocation no longer has the shape `i if i < N => poke, Register | UNASSIGNED => Unassigned | i => Memory`", A.where(fn))
     # get_memory: pops a spare or grows slot_count by exactly one, returning the old count
     fn = afn("get_memory", root)
-    txt = A.unparse(fn["body"]).replace(" ", "")
+    txt = A.ftxt(fn["body"])
     import re as _re
 
     if "self.spare_memory.pop()" in txt and _re.search(r"letout=self\.out\.slot_count;\(self\.out\.slot_count\+=[1-9]\d*\);", txt):
@@ -667,7 +667,7 @@ def r5_helpers(rule, root=None):
         rule.bad("get_memory", "get_memory must pop spare_memory or return slot_count and then increment it by one", A.where(fn))
     # get_spare_register keeps slot_count >= r + 1
     fn = afn("get_spare_register", root)
-    txt = A.unparse(fn["body"]).replace(" ", "")
+    txt = A.ftxt(fn["body"])
     if "self.spare_registers.pop()?" in txt and "self.out.slot_count=self.out.slot_count.max(((rasu32)+1))" in txt:
         rule.ok("get_spare_register: slot_count = max(slot_count, r + 1)")
     else:
